@@ -19,6 +19,9 @@ from collections import Counter
 
 ROOT = os.path.dirname(os.path.dirname(os.path.abspath(__file__)))
 KNOWN_FILE = os.path.join(ROOT, "known_findings.json")
+# Output directories. Runs against a deliberately broken tree (tools/try_mutant.sh) set VP_OUT_DIR so that the
+# committed evidence, which must describe the unchanged tree, is never overwritten by them.
+OUT_ROOT = os.environ.get("VP_OUT_DIR") or ROOT
 
 
 # --------------------------------------------------------------------------------------------
@@ -378,7 +381,7 @@ def run_property(prop_id, tier, seed, jobs):
         if k not in by_sig or len(json.dumps(v["case"])) < len(json.dumps(by_sig[k]["case"])):
             by_sig[k] = v
     rc = 0
-    rep_dir = os.path.join(ROOT, "replays", prop_id)
+    rep_dir = os.path.join(OUT_ROOT, "replays", prop_id)
     lines = []
     for sig, e in sorted(m["known_hits"].items()):
         lines.append("KNOWN-FINDING: property=%s %s [%s] (reproduced %d times)" % (
@@ -389,7 +392,7 @@ def run_property(prop_id, tier, seed, jobs):
         with open(path, "w") as f:
             json.dump({"property": prop_id, "signature": sig, "clause": v["clause"],
                        "findings": v["findings"], "case": v["case"], "seed": seed, "tier": tier}, f, indent=1)
-        lines.append("VIOLATION property=%s replay=%s" % (prop_id, os.path.relpath(path, ROOT)))
+        lines.append("VIOLATION property=%s replay=%s" % (prop_id, os.path.relpath(path, ROOT) if OUT_ROOT == ROOT else path))
         lines.append("  signature=%s detail=%s" % (sig, json.dumps(v["findings"][0]["detail"])[:600]))
         rc = 1
     write_evidence(mod, prop_id, tier, seed, m, wall, len(by_sig), known, reg_n)
@@ -424,8 +427,8 @@ def write_evidence(mod, prop_id, tier, seed, m, wall, nviol, known, reg_n):
     ev = {"property_id": prop_id, "tier": tier, "seed": int(seed), "level": "exploration",
           "coverage": cov, "assumptions": list(getattr(mod, "ASSUMPTIONS", [])),
           "wall_s": round(wall, 2), "violations": int(nviol)}
-    os.makedirs(os.path.join(ROOT, "evidence"), exist_ok=True)
-    with open(os.path.join(ROOT, "evidence", prop_id + ".json"), "w") as f:
+    os.makedirs(os.path.join(OUT_ROOT, "evidence"), exist_ok=True)
+    with open(os.path.join(OUT_ROOT, "evidence", prop_id + ".json"), "w") as f:
         json.dump(ev, f, indent=1, sort_keys=True)
 
 
